@@ -458,3 +458,7 @@ def replay(run, data) -> None:
     run_history(run, run.seed, int(data['case']['id']))
     run.case('pad', True)
     run.case('pad2', True)
+
+
+# (kept at the end of the file so that the text above stays the description the check was first built to)
+RULE += ' ' + "Later additions: remove_ent / remove() of worldspawn; add_ent / add_ents of entities already in the map (and of worldspawn), then one removal; clear() on worldspawn; non-string values for targetname / classname; search('') finds nothing."
